@@ -362,6 +362,45 @@ fn run(op: &str, a: &[&str]) -> String {
             };
             format!("ok {} | {}", sh(f.to_int()), sh(r.to_int()))
         }),
+        // ---------------- Rust's own `as` casts (the contract the conversions rely on) ----------------
+        // `cast_i2f f32|f64 <ty> <int>...`: (int as ty) as f32/f64, one bit pattern per value
+        "cast_i2f" => {
+            let mut out = Vec::new();
+            for v in &a[2..] {
+                let bits = if is_signed(a[1]) {
+                    with_iprim!(a[1], |T| {
+                        let x = i128_of(v) as T;
+                        match a[0] { "f32" => (x as f32).bits_hex(), _ => (x as f64).bits_hex() }
+                    })
+                } else {
+                    with_uprim!(a[1], |T| {
+                        let x = u128_of(v) as T;
+                        match a[0] { "f32" => (x as f32).bits_hex(), _ => (x as f64).bits_hex() }
+                    })
+                };
+                out.push(bits);
+            }
+            format!("ok {}", out.join(" "))
+        }
+        // `cast_f2i <ty> f32|f64 <bits>...`: f as ty, one integer per pattern
+        "cast_f2i" => {
+            let mut out = Vec::new();
+            for b in &a[2..] {
+                let r = if is_signed(a[0]) {
+                    with_iprim!(a[0], |T| match a[1] {
+                        "f32" => hi128((f32_of(b) as T) as i128),
+                        _ => hi128((f64_of(b) as T) as i128),
+                    })
+                } else {
+                    with_uprim!(a[0], |T| match a[1] {
+                        "f32" => format!("{:x}", (f32_of(b) as T) as u128),
+                        _ => format!("{:x}", (f64_of(b) as T) as u128),
+                    })
+                };
+                out.push(r);
+            }
+            format!("ok {}", out.join(" "))
+        }
         _ => format!("unknown-op {}", op),
     }
 }
